@@ -229,3 +229,5 @@ func verifC01Tdx(rows int) {
 func VerifC01Tdx0() { verifC01Tdx(0) }
 func VerifC01Tdx1() { verifC01Tdx(1) }
 func VerifC01Tdx2() { verifC01Tdx(2) }
+
+func VerifC01Tdx3() { verifC01Tdx(3) }
